@@ -535,3 +535,13 @@ func (c *Ctx) Query(o *Obligation) string {
 	}
 	return b.String()
 }
+
+// boundFn: the function value of a bound method (x.M used as a value): determined by the method and the receiver
+func (c *Ctx) boundFn(method, recvSort, recv string) string {
+	n := "boundfn_" + mangle(method)
+	if !c.fnConsts[n] {
+		c.fnConsts[n] = true
+		c.decl("fn:"+n, fmt.Sprintf("(declare-fun %s (%s) Fn)\n(assert (forall ((r %s)) (! (not (= (%s r) nil_fn)) :pattern ((%s r)))))", n, recvSort, recvSort, n, n))
+	}
+	return sx(n, recv)
+}
